@@ -47,7 +47,7 @@ def spaces(tier):
     def gen_long():
         for n in LONG:
             for shape in ("xy", "x-empty", "x-xy", "self"):
-                for w in ((1, 1, 1), (1, 2, 3), (3, 2, 1)):
+                for w in ((1, 1, 1), (1, 2, 3), (3, 2, 1), (300, 200, 500), (7, 11, 13)):
                     yield ("long", n, shape, w)
 
     def gen_func():
@@ -214,6 +214,22 @@ def check_case(case, acc):
                 acc.fail("functional-cdist/%s" % ("kwargs" if kw else "layout"), case, expc, c)
                 return
             acc.ok((scale, tuple(exp)), nontrivial=any(exp))
+        # default metric with forwarded keyword arguments (python-Levenshtein's distance: score_cutoff -> cutoff+1 beyond it, weights)
+        first = lambda s_: s_[:1]
+        for kw, ref in (({"score_cutoff": 0}, lambda a, b: min(ref_lev(a, b), 1)), ({"weights": (1, 2, 3)}, lambda a, b: ref_wlev(a, b, 1, 2, 3)),
+                        ({"processor": first}, lambda a, b: ref_lev(a[:1], b[:1])), ({"weights": (2, 1, 3), "score_cutoff": 2}, lambda a, b: min(ref_wlev(a, b, 2, 1, 3), 3))):
+            acc.cls("kwargs-forwarded")
+            v = acc.call(pyrepseq.pdist, X, **kw)
+            exp = [ref(X[i], X[j]) for i in range(m_) for j in range(i + 1, m_)]
+            if raised(v) or v.tolist() != exp:
+                acc.fail("functional-pdist/default-metric-kwargs", case, exp, v, note=str(sorted(kw)))
+                return
+            c = acc.call(pyrepseq.cdist, X, X[::-1], **kw)
+            expc = [[ref(a, b) for b in X[::-1]] for a in X]
+            if raised(c) or c.tolist() != expc:
+                acc.fail("functional-cdist/default-metric-kwargs", case, expc, c, note=str(sorted(kw)))
+                return
+            acc.ok()
         # default metric, default dtype; generators as input
         v = acc.call(pyrepseq.pdist, (s for s in X))
         exp = [ref_lev(X[i], X[j]) for i in range(m_) for j in range(i + 1, m_)]
